@@ -218,6 +218,18 @@ class CSA:
                         return self.match_pat(subs[0][1], val[2], st, env)
                     return []
                 raise Undecided('CSA: Result pattern against %s' % (val,))
+            if name == 'Symbol' and val[0] == 'sym' and k == 'p_struct':
+                # `let Symbol { scope, index } = symbol`
+                e2 = dict(env)
+                res_ = [('yes', st, e2)]
+                for member, sp in subs:
+                    fv = ('symscope', val[1]) if member == 'scope' else ('symindex', val[1]) if member == 'index' else ('unk', member)
+                    nxt = []
+                    for verdict, s3, e3 in res_:
+                        for v4, s4, e4 in self.match_pat(sp, fv, s3, e3):
+                            nxt.append((verdict if v4 == 'yes' else 'maybe', s4, e4))
+                    res_ = nxt
+                return res_
             if enum == 'Scope':
                 if val[0] == 'symscope':
                     known = st.sym_scope.get(val[1])
@@ -727,6 +739,9 @@ class CSA:
         q = f[-2] if len(f) > 1 else None
 
         def cont(s, en, vals):
+            if q is None and isinstance(en.get(name), tuple) and en[name][0] == 'closure':
+                # a local closure called by name: `let f = || ...; f()`
+                return self.apply_closure(en[name], vals, s, en)
             if q is None and name in ('Ok', 'Err'):
                 return [(s, en, 'v', ('res', name.lower(), vals[0] if vals else ('unit',)))]
             if q is None and name == 'Some':
@@ -1115,6 +1130,11 @@ class CSA:
                 return V(('unit',))
             if meth == 'change_jump_operand_at':
                 m.patch(s, a[0], a[1])
+                if 'Result' in self.methods[meth]['output']:
+                    # the primitive narrows the target itself and can refuse a program that is too large
+                    s2 = s.clone()
+                    s2.trace.append('%s fails' % meth)
+                    return [(s, en, 'v', ('res', 'ok', ('unit',))), (s2, en, 'v', ('res', 'err', ('error', 'too large')))]
                 return V(('unit',))
             if meth == 'last_instruction_is':
                 m.finalize(s)
